@@ -428,7 +428,20 @@ pub fn check_cli(case: &CfgCase, w: usize, side: Side) -> CheckResult {
             if apis.is_empty() {
                 return Ok(CaseInfo::new(false).class("acyclic(C03)"));
             }
-            for (name, args) in apis {
+            // second phase: the same rejection is owed when a checkpoint exists and nothing has changed since
+            let mut phase2: Vec<(&str, Vec<&str>)> = vec![];
+            if cyclic_all {
+                phase2.push(("analyze --target-groups (checkpoint, clean tree)", vec!["analyze", "--target-groups"]));
+                phase2.push(("run (checkpoint, clean tree)", vec!["run", "-c", "c0"]));
+            }
+            let first = apis.len();
+            apis.extend(phase2);
+            for (k, (name, args)) in apis.into_iter().enumerate() {
+                if k == first {
+                    if let Err(e) = bb::commit_all_and_checkpoint(&mut env) {
+                        return inconclusive(e);
+                    }
+                }
                 env.clear_traces();
                 let o = env.mr(&args);
                 if o.timed_out {
